@@ -17,6 +17,13 @@ def expand(text, defs, depth=4):
     return text
 
 
+_ABSURD = {"truthy(None)", "truthy(False)", "falsy(True)", "isnot(None,None)", "truthy(())", "truthy([])", "truthy(0)", "truthy('')"}
+
+
+def _absurd(a):
+    return a.replace("(None)", "None").replace("(False)", "False").replace("(True)", "True") in _ABSURD
+
+
 def stmt_paths(stmts, facts, defs, flag, probe=None, opaque_loops=False):
     """enumerate the paths through a loop-free statement list: yields (outcome, facts, defs) with outcome one of
     'fall', 'reject' (the flag was cleared), ('return', expr), 'break', 'continue'; None when a statement is outside the template"""
@@ -34,6 +41,8 @@ def stmt_paths(stmts, facts, defs, flag, probe=None, opaque_loops=False):
         if flag is not None and nm == flag and isinstance(st.value, ast.Constant) and st.value.value is False:
             yield ("reject", facts, defs)
             return
+        if probe is not None:
+            probe(st, facts, defs)
         df = dict(defs)
         df[nm] = "(%s)" % expand(norm(st.value), defs) if not isinstance(st.value, (ast.Name, ast.Attribute, ast.Subscript)) else expand(norm(st.value), defs)
         for r in cont(facts, df):
@@ -50,7 +59,10 @@ def stmt_paths(stmts, facts, defs, flag, probe=None, opaque_loops=False):
     elif isinstance(st, ast.If):
         for pol, blk in ((True, st.body), (False, st.orelse)):
             for alt in alts_of(st.test, pol):
-                fa = facts | frozenset(expand(a, defs) for a in alt)
+                new = frozenset(expand(a, defs) for a in alt)
+                if any(_absurd(a) for a in new):
+                    continue  # e.g. `if port:` on a path where port was just set to None
+                fa = facts | new
                 for (oc, f2, d2) in stmt_paths(blk, fa, defs, flag, probe, opaque_loops):
                     if oc is None:
                         yield (None, f2, d2)
@@ -88,6 +100,28 @@ def stmt_paths(stmts, facts, defs, flag, probe=None, opaque_loops=False):
             probe(st, facts, defs)
         for r in cont(facts, defs):
             yield r
+    elif isinstance(st, ast.Try) and not st.finalbody:
+        # the protected block runs to its end (then the else clause), or is left for a handler at some point: the handler starts from
+        # what held before the block, minus what the block may have rebound
+        for (oc, f2, d2) in stmt_paths(st.body + st.orelse, facts, defs, flag, probe, opaque_loops):
+            if oc is None:
+                yield (None, f2, d2)
+            elif oc == "fall":
+                for r in cont(f2, d2):
+                    yield r
+            else:
+                yield (oc, f2, d2)
+        stored = {t.id for s_ in st.body for t in ast.walk(s_) if isinstance(t, ast.Name) and isinstance(t.ctx, (ast.Store, ast.Del))}
+        dh = {k: v for k, v in defs.items() if k not in stored}
+        for h in st.handlers:
+            for (oc, f2, d2) in stmt_paths(h.body, facts, dh, flag, probe, opaque_loops):
+                if oc is None:
+                    yield (None, f2, d2)
+                elif oc == "fall":
+                    for r in cont(f2, d2):
+                        yield r
+                else:
+                    yield (oc, f2, d2)
     elif opaque_loops and isinstance(st, (ast.For, ast.While)):
         if probe is not None:
             probe(st, facts, defs)
